@@ -53,5 +53,8 @@ for d in sorted(glob.glob(os.path.join(V, "seeded", "*", "meta.json"))):
     else:
         caught, how, detail = "?", "", ""
     out.append("| %s | %s | %s | %s | %s %s |\n" % (name, m.get("property"), " ".join(str(m.get("needs", "")).split())[:260].replace("|", "\\|"), caught, how, detail))
+lim = os.path.join(V, "tools", "design_limits.md")
+if os.path.exists(lim):
+    out.append("\n" + open(lim).read())
 open(os.path.join(V, "DESIGN.md"), "w").write("".join(out))
 print("DESIGN.md written, %d bytes" % len("".join(out)))
